@@ -1,4 +1,4 @@
-import BobModel.Proofs.C01Cook
+import BobModel.Props.C01
 /-
 C05 — failed or killed builds never poison the workspace: property theorems about the builder model
 (Model/Builder.lean).  Definitions (`Truthful`, `Loc`, `AllWF` ...) and lemmas live in Proofs/C01*.lean.
@@ -34,4 +34,44 @@ theorem truthful_at_every_cut (E : Env) (dev : Bool) (Γ : Path → List (Dir ×
   | ok a r' => rw [hr] at hk; exact hk.1
   | abort r' => rw [hr] at hk; exact hk
 
-end C05
+/-- any sequence of invocations in one workspace - successful, failing, or killed at any cut -
+each with its own project state, flags, cut point and junk content -/
+def runAny (E : Env) : List (Cfg × Step × Nat × Content) → St → St
+  | [], st => st
+  | (cfg, T, fuel, junk) :: rest, st => runAny E rest (invoke { E with junk := junk } cfg T fuel st).st
+
+theorem runAny_truthful (E : Env) (dev : Bool) (Γ : Path → List (Dir × Digest)) (hinj : Function.Injective E.H)
+    (hist : List (Cfg × Step × Nat × Content))
+    (hall : ∀ x ∈ hist, (x.1.cleanBuild = false → dev = true) ∧ AllWF Γ x.2.1)
+    (st : St) (h : Truthful E dev Γ st) : Truthful E dev Γ (runAny E hist st) := by
+  induction hist generalizing st with
+  | nil => exact h
+  | cons x rest ih =>
+    obtain ⟨cfg, T, fuel, junk⟩ := x
+    simp only [runAny]
+    have hx := hall (cfg, T, fuel, junk) (by simp)
+    apply ih (fun y hy => hall y (by simp [hy]))
+    exact (truthful_junk junk).mp
+      (truthful_at_every_cut { E with junk := junk } dev Γ cfg T hinj hx.1 hx.2 st ((truthful_junk junk).mpr h) fuel)
+
+/-- **aborted builds never poison the workspace**: after any history of invocations of arbitrary
+project states - any number of them failing or killed at any cut with any junk left behind - a
+successful invocation produces, for every reachable step of its project (in particular every
+package result), exactly the content of a from-scratch build in an empty workspace. -/
+theorem abort_then_cook_eq_clean (E : Env) (dev : Bool) (Γ : Path → List (Dir × Digest))
+    (hinj : Function.Injective E.H) (hist : List (Cfg × Step × Nat × Content))
+    (hall : ∀ x ∈ hist, (x.1.cleanBuild = false → dev = true) ∧ AllWF Γ x.2.1)
+    (cfg : Cfg) (T : Step) (fuel : Nat) (rA : Run)
+    (hdev : cfg.cleanBuild = false → dev = true) (hsem : SemHyp E dev T) (hwf : TreeWF Γ T)
+    (hnd : cfg.noDeps = false) (hco : cfg.checkoutOnly = false)
+    (hA : invoke E cfg T fuel (runAny E hist St.init) = .ok () rA)
+    (cfgB : Cfg) (fuelB : Nat) (rB : Run) (hdevB : cfgB.cleanBuild = false → dev = true)
+    (hndB : cfgB.noDeps = false) (hcoB : cfgB.checkoutOnly = false)
+    (hB : invoke E cfgB T fuelB St.init = .ok () rB) :
+    ∀ u ∈ reach T, rA.st.disk u.path = rB.st.disk u.path ∧ rA.st.disk u.path = some (value E u) := by
+  have ht := runAny_truthful E dev Γ hinj hist hall St.init (truthful_init E dev Γ)
+  have dA := (C01.cook_result_is_dataflow E dev Γ cfg T hinj hdev hsem hwf hnd hco _ ht fuel rA hA).2
+  have dB := (C01.cook_result_is_dataflow E dev Γ cfgB T hinj hdevB hsem hwf hndB hcoB St.init (truthful_init E dev Γ)
+    fuelB rB hB).2
+  intro u hu
+  exact ⟨by rw [dA u hu, dB u hu], dA u hu⟩
